@@ -1,7 +1,11 @@
 package csim
 
 import (
+	"fmt"
 	"math/rand"
+	"time"
+
+	"github.com/lianxiangcloud/linkchain/libs/crypto"
 
 	cs "github.com/lianxiangcloud/linkchain/consensus"
 	cstypes "github.com/lianxiangcloud/linkchain/consensus/types"
@@ -104,6 +108,21 @@ func lockScript(n *Net, rng *rand.Rand, res *SimResult) {
 		}
 	}
 	all := []int{0, 1, 2, 3}
+	// while the nodes wait in NewHeight of the first height: a peer's precommit "for height 0".  There is no last commit to add it
+	// to: it must be rejected as a height mismatch (fix 26762b7; before it the nil LastCommit vote set was dereferenced)
+	if n.Nodes[0].CS.VerifRoundState().Height == 1 {
+		j := rng.Intn(4)
+		sv := &types.Vote{ValidatorAddress: n.Vals[j].Address, ValidatorIndex: j, ValidatorSize: 4, Height: 0, Round: 0,
+			Timestamp: time.Unix(1600000000, 0).UTC(), Type: types.VoteTypePrecommit}
+		sig, _ := crypto.GenPrivKeyEd25519FromSecret([]byte("lv-stray")).Sign(sv.SignBytes(n.Cfg.ChainID))
+		sv.Signature = sig
+		for _, i := range all {
+			if i != j {
+				n.Deliver(i, &Msg{ID: fmt.Sprintf("stray.%d", i), From: j, Payload: &cs.VoteMessage{Vote: sv}})
+				res.Delivered++
+			}
+		}
+	}
 	// round 0
 	for _, i := range all {
 		fire(i, cstypes.RoundStepNewHeight)
